@@ -1,5 +1,6 @@
 import ModbusModel.Lemmas.Rtu
 import ModbusModel.Lemmas.Encode
+import ModbusModel.Lemmas.Crc
 /-
   C04 – RTU delivers only CRC-valid frames and emits only CRC-correct frames.
 -/
@@ -64,6 +65,80 @@ theorem rtu_emit_response (slave : UInt8) (r : ResponseResult) (bytes : Bytes)
   · simp at h
   · split at h <;> simp at h
     exact h.symm
+
+/-! ### "so a frame damaged in transit is never delivered as data": what the CRC guarantees -/
+
+/-- **the CRC is linear**: the register `calc_crc` ends with for a damaged frame is the register for
+    the frame, xor the register – started from 0 – for the error pattern alone -/
+theorem crc_linear (frame err : Bytes) (h : frame.length = err.length) :
+    reg 0xFFFF (xorL frame err) = reg 0xFFFF frame ^^^ reg 0 err := by
+  have e0 : (0xFFFF : UInt16) = 0xFFFF ^^^ 0 := by decide
+  conv => lhs; rw [e0]
+  exact reg_xor frame err 0xFFFF 0 h
+
+/-- every frame the library transmits or delivers – address, PDU, CRC low byte first – leaves the
+    CRC register at 0 -/
+theorem valid_frame_register_zero (body : Bytes) : reg 0xFFFF (body ++ crcBytes body) = 0 :=
+  reg_valid body
+
+/-- **one damaged byte** (any of its 255 error patterns, so every single-bit error and every
+    burst inside a byte), anywhere in a frame of any length: the result is not a valid frame -/
+theorem corrupted_byte_never_valid (body body' : Bytes) (i j : Nat) (e : UInt8) (he : e ≠ 0)
+    (hlen : (body ++ crcBytes body).length = i + 1 + j) :
+    xorL (body ++ crcBytes body) (pattern i [e] j) ≠ body' ++ crcBytes body' :=
+  damaged_never_valid body body' i j [e] hlen (by simpa [reg] using crcByte_err_ne_zero e he)
+
+/-- **every single-bit error** is among them -/
+theorem single_bit_error_never_valid (body body' : Bytes) (i j : Nat) (k : Fin 8)
+    (hlen : (body ++ crcBytes body).length = i + 1 + j) :
+    xorL (body ++ crcBytes body) (pattern i [(1 : UInt8) <<< k.val.toUInt8] j) ≠ body' ++ crcBytes body' := by
+  apply corrupted_byte_never_valid body body' i j _ _ hlen
+  revert k
+  decide
+
+/-- **two adjacent damaged bytes** (every burst of up to 9 bits wherever it starts, every error
+    pattern within a 16-bit word): not a valid frame -/
+theorem corrupted_word_never_valid (body body' : Bytes) (i j : Nat) (e1 e2 : UInt8) (he : e1 ≠ 0 ∨ e2 ≠ 0)
+    (hlen : (body ++ crcBytes body).length = i + 2 + j) :
+    xorL (body ++ crcBytes body) (pattern i [e1, e2] j) ≠ body' ++ crcBytes body' :=
+  damaged_never_valid body body' i j [e1, e2] hlen (by simpa [reg] using two_bytes_ne_zero e1 e2 he)
+
+/-- **every burst of up to 16 bits**, at any bit offset, in a frame of any length: the damaged
+    bits lie in three consecutive bytes, from bit `k` of the first to below bit `k` of the third
+    (`within16`; the line carries the least significant bit first).  The result is never a valid
+    frame – so, by `rtu_delivery_sound`, nothing the decoder delivers is such a damaged frame. -/
+theorem burst16_never_valid (body body' : Bytes) (i j : Nat) (e1 e2 e3 : UInt8)
+    (hb : within16 e1 e3 = true) (he : e1 ≠ 0 ∨ e2 ≠ 0 ∨ e3 ≠ 0)
+    (hlen : (body ++ crcBytes body).length = i + 3 + j) :
+    xorL (body ++ crcBytes body) (pattern i [e1, e2, e3] j) ≠ body' ++ crcBytes body' :=
+  damaged_never_valid body body' i j [e1, e2, e3] hlen (by simpa [reg] using three_bytes_ne_zero e1 e2 e3 hb he)
+
+/-- **every double-bit error** whose two bits lie in different bytes up to 300 bytes apart – the
+    longest RTU frame has 256 – (two bits of one byte are a case of `corrupted_byte_never_valid`) -/
+theorem double_bit_error_never_valid (body body' : Bytes) (i j m : Nat) (k1 k2 : Fin 8) (hm : m < 300)
+    (hlen : (body ++ crcBytes body).length = i + (m + 2) + j) :
+    xorL (body ++ crcBytes body)
+        (pattern i ([(1 : UInt8) <<< k1.val.toUInt8] ++ List.replicate m 0 ++ [(1 : UInt8) <<< k2.val.toUInt8]) j)
+      ≠ body' ++ crcBytes body' :=
+  damaged_never_valid body body' i j _ (by simpa using hlen) (two_bits_ne_zero k1 k2 m hm)
+
+/-- the same, said of the decoder: whatever the RTU frame decoder delivers is not a valid frame
+    hit by a burst of up to 16 bits -/
+theorem delivered_is_no_burst_damaged_frame (lenFn : Bytes → Res (Option Nat)) (maxPdu : Nat) (hl : LenFn lenFn maxPdu)
+    (hm : 8 ≤ maxPdu) (fd : FrameDecoder) (buf : Bytes) (slave : UInt8) (pdu : Bytes)
+    (h : (rtuDecode lenFn fd buf).1 = .ok (some (slave, pdu)))
+    (body : Bytes) (i j : Nat) (e1 e2 e3 : UInt8)
+    (hb : within16 e1 e3 = true) (he : e1 ≠ 0 ∨ e2 ≠ 0 ∨ e3 ≠ 0)
+    (hlen : (body ++ crcBytes body).length = i + 3 + j) :
+    ∃ dropped, buf = dropped ++ (slave :: pdu ++ crcBytes (slave :: pdu)) ++ (rtuDecode lenFn fd buf).2.2
+      ∧ slave :: pdu ++ crcBytes (slave :: pdu) ≠ xorL (body ++ crcBytes body) (pattern i [e1, e2, e3] j) := by
+  obtain ⟨dropped, _, hs⟩ := rtu_delivery_sound lenFn maxPdu hl hm fd buf slave pdu h
+  refine ⟨dropped, hs, fun heq => ?_⟩
+  exact burst16_never_valid body (slave :: pdu) i j e1 e2 e3 hb he hlen (by simpa using heq.symm)
+
+-- non-vacuity: a burst of 16 bits from bit 3 of one byte to bit 2 of the byte after the next
+example : within16 0xF8 0x07 = true := by decide
+example : within16 0x01 0x01 = false := by decide   -- 17 bits apart: not a burst of 16
 
 /-- the catalogue check value of CRC-16/MODBUS: crc("123456789") = 0x4B37, transmitted low byte first -/
 theorem crc_check_value :
